@@ -133,6 +133,9 @@ pub struct Chain {
     pub no_redelegate: BTreeSet<Id>,
     /// validators whose undelegations the staking module refuses (unbonding-entry limit reached)
     pub no_undelegate: BTreeSet<Id>,
+    /// validators that have left the active (bonded) set: the validator queries no longer list
+    /// them; staking messages to them keep working, as on a real chain
+    pub inactive: BTreeSet<Id>,
     pub unbonding_time: u64,
     pub oracle_ok: bool,
     pub oracle_price: u128,
@@ -238,6 +241,7 @@ impl Chain {
             withdraw_addr: HUB,
             no_redelegate: BTreeSet::new(),
             no_undelegate: BTreeSet::new(),
+            inactive: BTreeSet::new(),
             unbonding_time: 0,
             oracle_ok: true,
             oracle_price: D,
@@ -349,6 +353,31 @@ impl Chain {
                 let target = id_of(contract_addr);
                 self.smart_query(from, target, msg)
             }
+            // the chain's active validator set (no contract of the unchanged repository asks for it)
+            QueryRequest::Staking(StakingQuery::AllValidators {}) => {
+                let mk = |v: &Id| cosmwasm_std::Validator {
+                    address: name(*v),
+                    commission: cosmwasm_std::Decimal::percent(5),
+                    max_commission: cosmwasm_std::Decimal::percent(20),
+                    max_change_rate: cosmwasm_std::Decimal::percent(1),
+                };
+                ok_bin(&cosmwasm_std::AllValidatorsResponse { validators: VALS.iter().filter(|v| !self.inactive.contains(v)).map(mk).collect() })
+            }
+            QueryRequest::Staking(StakingQuery::Validator { address }) => {
+                let v = id_of(address);
+                let val = if VALS.contains(&v) && !self.inactive.contains(&v) {
+                    Some(cosmwasm_std::Validator {
+                        address: name(v),
+                        commission: cosmwasm_std::Decimal::percent(5),
+                        max_commission: cosmwasm_std::Decimal::percent(20),
+                        max_change_rate: cosmwasm_std::Decimal::percent(1),
+                    })
+                } else {
+                    None
+                };
+                ok_bin(&cosmwasm_std::ValidatorResponse { validator: val })
+            }
+            QueryRequest::Staking(StakingQuery::BondedDenom {}) => ok_bin(&cosmwasm_std::BondedDenomResponse { denom: "usei".into() }),
             _ => sys_err("unsupported query"),
         }
     }
